@@ -46,8 +46,12 @@ def blob_len(t):
     return int(t[1:].split(".")[0]) if t.startswith("#") else len(t) // 2
 
 
+_AZ = bytes(range(97, 123))
+
+
 def payload(n, seed):
-    return bytes(97 + (seed + j) % 26 for j in range(n))
+    """byte j of the item is 'a' + (seed + j) mod 26 (same formula in the harness and in the OCaml driver)"""
+    return (_AZ * (n // 26 + 2))[seed % 26:seed % 26 + n]
 
 
 def encoding(codec, tok):
